@@ -22,6 +22,7 @@ import Driver.Typed
 import Driver.DetachHold
 import Driver.IoRead
 import Driver.Routing
+import Driver.ChanRouting
 
 structure DState where
   sess : Amqp.Session.St := Amqp.Session.init 0 0 0
@@ -36,6 +37,7 @@ structure DState where
   slife : Amqp.SessLife.St := Amqp.SessLife.mapped0
   limits : Driver.Limits.DSt := {}
   routing : Amqp.Routing.Tab := Amqp.Routing.Tab.empty
+  chans : Driver.ChanRouting.DSt := {}
 
 def handle (st : DState) (line : String) : DState × String :=
   match Driver.words line with
@@ -59,6 +61,10 @@ def handle (st : DState) (line : String) : DState × String :=
   | "M" :: ws =>
     match Driver.Reasm.step st.reasm ws with
     | some (s, out) => ({ st with reasm := s }, out)
+    | none => (st, "bad-op")
+  | "J" :: ws =>
+    match Driver.ChanRouting.step st.chans ws with
+    | some (s, out) => ({ st with chans := s }, out)
     | none => (st, "bad-op")
   | "U" :: ws =>
     match Driver.Routing.step st.routing ws with
